@@ -179,6 +179,40 @@ def _dominating_edges(fn, bb):
     return out
 
 
+def _predicate_helper_facts(fn, cond, label, _depth):
+    """`if helper(args)` where helper is a local, loop-free function returning bool: the facts that hold on every path on
+    which the helper returns `label`, with the helper's parameters replaced by the arguments"""
+    c = prov.strip(cond, names=set(IDENTITY_BOOL))
+    if c[0] != 'call' or not c[1].get('local') or _depth > 2:
+        return []
+    target = fn.facts.fn(c[1].get('path')) if getattr(fn, 'facts', None) is not None else None
+    if target is None or target.kind == 'Closure' or (target.j.get('output') or {}).get('s') != 'bool':
+        return []
+    if target.cfg.sccs():
+        return []
+    want = label == 'true'
+    common = None
+    PT = prov.prov_of(target)
+    for r in target.cfg.returns:
+        n = len(target.blocks[r]['s'])
+        # each reaching definition of _0 is one way of returning
+        for d in PT.reaching(0, r, n):
+            v = PT.def_value(d)
+            facts = [(prov.show(x, maxdepth=8), lab, x) for x, lab in bool_facts(target, d.bb, _depth + 1)]
+            if v[0] == 'const' and v[1].get('val') in ('true', 'false'):
+                if (v[1].get('val') == 'true') != want:
+                    continue
+            else:
+                # returns the value of an expression: it is `label` exactly when that expression is
+                facts.append((prov.show(v, maxdepth=8), label, v))
+            keyed = {(a, b): x for a, b, x in facts}
+            common = keyed if common is None else {k: x for k, x in common.items() if k in keyed}
+    if not common:
+        return []
+    params = {i + 1: a for i, a in enumerate(c[2])}
+    return [(prov.subst(x, params), lab) for (_, lab), x in common.items()]
+
+
 def bool_facts(fn, bb, _depth=0):
     """atomic facts (cond tree, label) known to hold on entry to bb.  Short-circuit `a && b` / `a || b`
     lowering is undone: `phi(false, X) == true` implies X and everything that guarded X's evaluation."""
@@ -190,6 +224,7 @@ def bool_facts(fn, bb, _depth=0):
         out.append((info['cond'], label))
         if info['kind'] != 'bool' or label not in ('true', 'false'):
             continue
+        out.extend(_predicate_helper_facts(fn, info['cond'], label, _depth))
         # chase the switched operand through identity wrappers to a local with several definitions
         op = fn.blocks[sw]['t']['discr']
         at_bb, at_idx = sw, len(fn.blocks[sw]['s'])
